@@ -254,15 +254,42 @@ async fn exec<R: RadioKind>(r: &mut R, steps: &[Step]) -> Result<(), (usize, Rad
 }
 
 fn ours(cfg: Cfg, cell: &RefCell<Chip127>, steps: &[Step]) -> Result<Result<(), (usize, RadioError)>, Trapped> {
+    ours_after(cfg, cell, None, steps)
+}
+
+/// `earlier`: the same driver instance first lives an earlier life (those steps), then the chip
+/// is reset to the register image `earlier.1` and the driver re-initialised (what LoRa::init()
+/// does); the register image after that re-initialisation is stored back into `earlier.1` so
+/// that the reference can start from the same state. Nothing of the earlier life may survive
+/// in the driver.
+fn ours_after(cfg: Cfg, cell: &RefCell<Chip127>, earlier: Option<(&[Step], &mut [u8; 128])>, steps: &[Step]) -> Result<Result<(), (usize, RadioError)>, Trapped> {
+    macro_rules! go {
+        ($variant:expr) => {{
+            let mut r = Sx127x::new(Spi127(cell), Iv, Config { chip: $variant, tcxo_used: false, tx_boost: cfg.tx_boost, rx_boost: cfg.rx_boost });
+            trap(|| {
+                block_on(async {
+                    if let Some((pre, image)) = earlier {
+                        let _ = exec(&mut r, pre).await;
+                        *cell.borrow_mut() = Chip127::new(*image);
+                        // LoRa::init(): reset, ensure_ready(Sleep), set_standby, then the cold start
+                        let _ = r.reset(&mut Delayer).await;
+                        let _ = r.ensure_ready(lora_phy::mod_params::RadioMode::Sleep).await;
+                        let _ = r.set_standby().await;
+                        let _ = r.init_lora(0x3444).await;
+                        let _ = r.set_tx_power_and_ramp_time(0, None, false).await;
+                        let _ = r.set_irq_params(Some(lora_phy::mod_params::RadioMode::Standby)).await;
+                        let start = cell.borrow().regs;
+                        *image = start;
+                        *cell.borrow_mut() = Chip127::new(start);
+                    }
+                    exec(&mut r, steps).await
+                })
+            })
+        }};
+    }
     match cfg.chip {
-        Chip7::Sx1276 => {
-            let mut r = Sx127x::new(Spi127(cell), Iv, Config { chip: Sx1276, tcxo_used: false, tx_boost: cfg.tx_boost, rx_boost: cfg.rx_boost });
-            trap(|| block_on(exec(&mut r, steps)))
-        }
-        Chip7::Sx1272 => {
-            let mut r = Sx127x::new(Spi127(cell), Iv, Config { chip: Sx1272, tcxo_used: false, tx_boost: cfg.tx_boost, rx_boost: cfg.rx_boost });
-            trap(|| block_on(exec(&mut r, steps)))
-        }
+        Chip7::Sx1276 => go!(Sx1276),
+        Chip7::Sx1272 => go!(Sx1272),
     }
 }
 
@@ -377,8 +404,18 @@ pub fn compare(col: &mut Collector, sc: &Scenario) {
             "info": extra,
         })
     };
+    // a quarter of the comparisons: the driver has already lived through the same steps once, then
+    // the chip was reset and the driver re-initialised; both sides then start from the register
+    // image that re-initialisation leaves
+    let with_earlier_life = sc.prior[5] & 3 == 0 && !sc.ours.is_empty();
+    let mut start = sc.prior;
     let cell_o = RefCell::new(Chip127::new(sc.prior));
-    let r = ours(sc.cfg, &cell_o, &sc.ours);
+    let r = if with_earlier_life {
+        col.event("sx127x_after_earlier_life");
+        ours_after(sc.cfg, &cell_o, Some((&sc.ours, &mut start)), &sc.ours)
+    } else {
+        ours(sc.cfg, &cell_o, &sc.ours)
+    };
     let o = cell_o.into_inner();
     let res = match r {
         Err(t) => {
@@ -398,7 +435,7 @@ pub fn compare(col: &mut Collector, sc: &Scenario) {
             return;
         }
     }
-    let cell_r = RefCell::new(Chip127::new(sc.prior));
+    let cell_r = RefCell::new(Chip127::new(start));
     if !reference(sc.cfg, &cell_r, &sc.refs) {
         col.event("skip:ref_rejected");
         return;
@@ -471,7 +508,8 @@ pub fn compare(col: &mut Collector, sc: &Scenario) {
             detail(json!({
                 "register": format!("{:02x}", a),
                 "differing_registers": diff.iter().map(|a| format!("{:02x}", a)).collect::<Vec<_>>(),
-                "prior": regs_json(&sc.prior, &diff),
+                "prior": regs_json(&start, &diff),
+                "after_earlier_life_and_reinit": with_earlier_life,
                 "ours": regs_json(&o.regs, &diff),
                 "reference": regs_json(&rf.regs, &diff),
                 "compare_mask": regs_json(&sc.mask, &diff),
@@ -499,12 +537,12 @@ pub fn compare(col: &mut Collector, sc: &Scenario) {
     }
     // fields that must survive
     for (a, bits, pop, pcls) in &sc.preserve {
-        let x = (o.regs[*a as usize] ^ sc.prior[*a as usize]) & bits;
+        let x = (o.regs[*a as usize] ^ start[*a as usize]) & bits;
         if x != 0 {
             col.violation(
                 &format!("C13|sx127x/{}|{}|{}:reg{:02x} clobbered", chip, pop, pcls, a),
                 "lora-phy changed a register field the operation does not govern (the reference preserves it)",
-                detail(json!({"register": format!("{:02x}", a), "prior": format!("{:02x}", sc.prior[*a as usize]), "ours": format!("{:02x}", o.regs[*a as usize]), "must_preserve_bits": format!("{:02x}", bits), "clobbered_bits": format!("{:02x}", x)})),
+                detail(json!({"register": format!("{:02x}", a), "prior": format!("{:02x}", start[*a as usize]), "ours": format!("{:02x}", o.regs[*a as usize]), "must_preserve_bits": format!("{:02x}", bits), "clobbered_bits": format!("{:02x}", x)})),
             );
         }
     }
